@@ -30,8 +30,8 @@ LEVEL_NOTE = ("Trusted: Coq kernel, translator/c09_schema.py (regex transcriptio
               "primary index), the base root-ish stored as JSON inside conflict-artifact values.")
 THEOREMS = ["walk_covers_loads_complete", "walk_covers_loads_partial", "walk_covers_loads_refuted", "walk_covers_loads_today",
             "walk_covers_schema", "walk_covers_schema_complete", "walker_cases_pinned_ok", "schema_classified_ok"]
-REFUTED = ["walk_covers_loads_refuted (holds of the current source as long as Gen.SchemaAddrs.walker_cases lacks the rebase-state / "
-           "pre_merge_head / pending accessors in the WorkingSet case)"]
+REFUTED = ["walk_covers_loads_refuted is a statement about incomplete walkers (complete fl = false); the current source regenerates to "
+           "complete source_flags = true, so walk_covers_loads_today selects the proved branch"]
 RULE = ("repository states built through SQL: six scenarios (no operation in progress, conflicted merge, conflicted cherry-pick, conflicted "
         "revert series with a pending commit, interactive rebase before and after a conflicting step) × random options (staged/unstaged "
         "changes, tags, stashes, foreign keys, secondary indexes, out-of-band TEXT/JSON, 3..1500 rows); non-trivial = the state carries at "
@@ -220,44 +220,14 @@ def search_cases(rng):
             for s in SCNS]
 
 
-# ---- known findings: keyed per missing field, `WorkingSet.WalkAddrs:<sub-table>.<field>` ----
-KEY_PREFIX = "WorkingSet.WalkAddrs:"
-_reported = set()
-
-
-def _missing_keys(out):
-    o = out.get("obs")
-    if not o or out.get("panic") or out.get("err"):
-        return None
-    if o.get("stray"):
-        return None                      # stray reads are never a known finding
-    keys = []
-    for x in o["objs"]:
-        for f in x.get("missing") or []:
-            if x["msg"]["k"] != "ws":
-                return None              # only working-set omissions are known
-            keys.append(KEY_PREFIX + f)
-        # a failure that the per-field report does not explain is not known
-        if not set(x["loaded"]) <= set(x["walked"]) and not x.get("missing"):
-            return None
-    return sorted(set(keys))
-
-
+# ---- known findings ----
+# F2 (WorkingSet.WalkAddrs omitting rebase_state.pre_working_root_addr / rebase_state.onto_commit_addr /
+# merge_state.pre_merge_head_commit_addr / merge_state.pending_commit_hashes) was repaired in
+# go/store/types/serial_message.go.  Nothing is suppressed any more: a loaded-but-not-walked address of any
+# field is a violation.  The recipes that exposed it stay as always-run cases (first four of gen_cases, and
+# every scenario with merge / rebase state).
 def match_known(finding, case, out):
-    """True iff every loaded-but-not-walked address of this case belongs to a field listed as an open finding,
-    and `finding` is the one chosen to be reported for it (rotating, so that each key gets its KNOWN-FINDING line)."""
-    keys = _missing_keys(out)
-    if not keys:
-        return False
-    open_keys = {f["key"] for f in vlib.load_known(ID) if str(f.get("status", "")).startswith("open")}
-    if not set(keys) <= open_keys:
-        return False
-    fresh = [k for k in keys if k not in _reported]
-    target = fresh[0] if fresh else keys[0]
-    if finding.get("key") != target:
-        return False
-    _reported.add(target)
-    return True
+    return False
 
 
 def run(ctx):
